@@ -14,7 +14,7 @@ import warnings
 
 import numpy as np
 
-from pv.ctx import fingerprint
+from pv.ctx import CaseTimeout, fingerprint
 
 META = {
     "id": "C27",
@@ -287,7 +287,11 @@ def run(ctx):
         for name in ["default.qubit"] + devices_for(profile, spec, have_lightning) + ["null.qubit"]:
             ctx.case(fingerprint(fp, name), nontrivial=nontriv, cls=f"{name}:{profile}", sample={**info, "device": name} if name != "default.qubit" else None)
             try:
-                results[name] = execute(name)
+                with ctx.time_limit(90 if name.startswith("default.tensor") else 600, f"{name} execution"):
+                    results[name] = execute(name)
+            except CaseTimeout as e:
+                ctx.inconclusive_case(f"watchdog: {e} exceeded its wall-clock limit")
+                continue
             except Exception as e:  # noqa: BLE001
                 en = type(e).__name__
                 if en in ALLOWED or (name != "default.qubit" and en in ("NotImplementedError",) and ("not supported" in str(e).lower() or "doesn't support" in str(e).lower())):
